@@ -92,9 +92,10 @@ fn worker(args: &[String]) -> i32 {
     quiet_panics();
     let keys = known_keys(prop);
     let mut known = Sw::from_names(&keys.iter().map(|s| s.as_str()).collect::<Vec<_>>());
-    if std::env::var("VERIF_CLASSIFY_ALL").is_ok() {
-        // diagnosis only: classify against every as-implemented switch (never suppresses anything)
-        known = Sw(Sw::NAMES.iter().fold(0, |a, (_, b)| a | b));
+    if let Ok(list) = std::env::var("VERIF_CLASSIFY") {
+        // diagnosis only: classify against the named as-implemented switches ("all" = every one);
+        // never suppresses anything, only fills the explained_by field
+        known = if list == "all" { Sw(Sw::NAMES.iter().fold(0, |a, (_, b)| a | b)) } else { Sw::from_names(&list.split(',').collect::<Vec<_>>()) };
     }
     let Some(units) = props::units(prop, tier) else {
         eprintln!("unknown property {prop}");
